@@ -31,13 +31,20 @@ TRUSTED = [chem.TRUSTED, chem.TRUSTED2,
            'operator.gt/lt/ge/le/eq are the comparisons']
 
 
+def _defaultdict(I, a, k):
+    from pyvc.engine import DefaultDict
+    d = DefaultDict()
+    d.factory = a[0] if a else None
+    return d
+
+
 class W(World):
     def __init__(self):
         World.__init__(self)
         chem.install2(self)
         cmpb = lambda opn: Builtin('operator.' + opn, lambda I, a, k: I.compare({'gt': ast.Gt, 'lt': ast.Lt, 'ge': ast.GtE, 'le': ast.LtE, 'eq': ast.Eq}[opn], a[0], a[1]))
         self.externs['operator'] = Namespace('operator', {n: cmpb(n) for n in ('gt', 'lt', 'ge', 'le', 'eq')})
-        self.externs['collections.defaultdict'] = Builtin('defaultdict', lambda I, a, k: {})
+        self.externs['collections.defaultdict'] = Builtin('defaultdict', _defaultdict)
 
     def str_class_hook(self, I, v, name):
         raise Unsupported('character class of a symbolic string')
@@ -578,3 +585,419 @@ UNITS = [
     Unit('MolCharge.__call__', (MQ, 'MolCharge.__call__'), u_molcharge),
     Unit('MolQuery.GetQueryMatches', (MQ, 'MolQuery.GetQueryMatches'), u_getquerymatches),
 ]
+
+
+# =================================================================================================================
+# readers: translation table from syntax-tree shapes to constraint objects
+PARSER = 'pgradd/RINGParser/Parser.py'
+QAtom = BuiltinClass('QueryAtom')
+PlainAtom = BuiltinClass('PlainAtom')
+RWMolCls = BuiltinClass('RWMol')
+ElementKnown = z3.Function('ElementKnown', z3.StringSort(), BS)
+AtomicNumOf = z3.Function('AtomicNumOfSymbol', z3.StringSort(), IS)
+
+
+def tok(name):
+    return Obj(source.module(PARSER).classes['RINGToken'], {'name': name}, 'param')
+
+
+def T(name, *children):
+    return [tok(name)] + list(children)
+
+
+def describe(v):
+    """structure of a constraint / query object as nested tuples (for comparison with the denotation table)"""
+    if isinstance(v, Obj):
+        if v.cls is QAtom:
+            return ('QAtom', v.fields['prim'], tuple(v.fields['expanded']))
+        if v.cls is PlainAtom:
+            return ('PlainAtom', v.fields['symbol'])
+        if v.cls.name == 'ConstraintNumber':
+            return ('CN', v.fields.get('operator'), v.fields.get('n'))
+        if v.cls.name == 'BondQuery':
+            return ('BondQuery', v.fields.get('RINGbondname'))
+        if v.cls.name == 'BondConstraint':
+            return ('BondConstraint', describe(v.fields.get('bondquery')))
+        if v.cls.module is not None and v.cls.module.relpath == MQ:
+            return (v.cls.name,) + tuple((k, describe(x)) for k, x in sorted(v.fields.items()))
+        return ('obj', v.cls.name)
+    if isinstance(v, (list, tuple)):
+        return tuple(describe(x) for x in v)
+    return v
+
+
+def same_struct(a, b):
+    if isinstance(a, tuple) and isinstance(b, tuple):
+        if len(a) != len(b):
+            return z3.BoolVal(False)
+        cs = [same_struct(x, y) for x, y in zip(a, b)]
+        return z3.And(cs) if cs else z3.BoolVal(True)
+    if is_z3(a) or is_z3(b):
+        try:
+            return z3_of(a) == z3_of(b)
+        except Exception:    # noqa
+            return z3.BoolVal(False)
+    return z3.BoolVal(type(a) is type(b) and a == b)
+
+
+class RW(W):
+    """world for the readers: rdqueries / Chem.Atom / RWMol as recording abstractions"""
+    def __init__(self):
+        W.__init__(self)
+        mk = lambda name: Builtin('rdqueries.' + name, lambda I, a, k, name=name: Obj(QAtom, {'prim': (name,) + tuple(a), 'expanded': []}, 'fresh'))
+        names = ['AtomNumGreaterQueryAtom', 'AtomNumEqualsQueryAtom', 'FormalChargeEqualsQueryAtom', 'TotalValenceEqualsQueryAtom', 'IsAromaticQueryAtom']
+        self.externs['rdkit.Chem.rdqueries'] = Namespace('rdqueries', {n: mk(n) for n in names})
+        ch = self.externs['rdkit.Chem']
+        ch.members['rdqueries'] = self.externs['rdkit.Chem.rdqueries']
+        ch.members['Atom'] = Builtin('Chem.Atom', self._atom)
+        cq = Namespace('CompositeQueryType', {'COMPOSITE_OR': 'OR', 'COMPOSITE_AND': 'AND'})
+        ch.members['rdchem'].members['CompositeQueryType'] = cq
+        ch.members['GetPeriodicTable'] = Builtin('GetPeriodicTable', lambda I, a, k: Obj(BuiltinClass('PeriodicTable'), {}, 'param'))
+        self.externs['rdkit.Chem.GetPeriodicTable'] = ch.members['GetPeriodicTable']
+        self.abstract['PeriodicTable'] = {'attr': lambda I, o, n: Builtin('GetDefaultValence', lambda I2, a, k: z3.Function('DefaultValence', IS, IS)(z3_of(a[0]))) if n == 'GetDefaultValence' else NotImplementedVal}
+        self.abstract['QueryAtom'] = {'attr': self._qattr}
+        self.abstract['PlainAtom'] = {'attr': self._pattr}
+        self.abstract['RWMol'] = {'attr': self._rwattr}
+        self.extern_truth['RWMol'] = lambda I, o: True
+
+    def _atom(self, I, a, k):
+        s = z3_of(a[0])
+        if I.ctx.branch(z3.Not(ElementKnown(s))):
+            raise I.exc('RuntimeError', 'Element not found')
+        return Obj(PlainAtom, {'symbol': a[0]}, 'fresh')
+
+    def _qattr(self, I, o, name):
+        if name == 'ExpandQuery':
+            def f(I_, a, k):
+                how = k.get('how', a[1] if len(a) > 1 else 'AND')
+                o.fields['expanded'].append((how, describe(a[0])))
+            return Builtin('QueryAtom.ExpandQuery', f)
+        if name == 'GetAtomicNum':
+            return Builtin('GetAtomicNum', lambda I_, a, k: z3.IntVal(0))
+        return NotImplementedVal
+
+    def _pattr(self, I, o, name):
+        if name == 'GetAtomicNum':
+            return Builtin('GetAtomicNum', lambda I_, a, k: AtomicNumOf(z3_of(o.fields['symbol'])))
+        if name == 'SetIsAromatic':
+            return Builtin('SetIsAromatic', lambda I_, a, k: o.fields.__setitem__('aromatic', a[0]))
+        return NotImplementedVal      # in particular: a plain atom has no ExpandQuery
+
+    def _rwattr(self, I, o, name):
+        f = o.fields
+        if name == 'AddAtom':
+            def add(I_, a, k):
+                f['atoms'].append(a[0])
+                return len(f['atoms']) - 1
+            return Builtin('RWMol.AddAtom', add)
+        if name == 'AddBond':
+            def addb(I_, a, k):
+                i, j, t = a[0], a[1], a[2]
+                if i == j or any({i, j} == {p, q} for p, q, _ in f['bonds']):
+                    raise I_.exc('RuntimeError', 'Pre-condition Violation: bond already exists / self bond')
+                f['bonds'].append((i, j, t))
+            return Builtin('RWMol.AddBond', addb)
+        if name == 'GetBondBetweenAtoms':
+            def gb(I_, a, k):
+                for p, q, t in f['bonds']:
+                    if {p, q} == {a[0], a[1]}:
+                        return Obj(BuiltinClass('QueryBond'), {'type': t}, 'param')
+                return None
+            return Builtin('RWMol.GetBondBetweenAtoms', gb)
+        return NotImplementedVal
+
+
+def rworld():
+    return RW()
+
+
+def mk_molquery(I, natoms=0):
+    cls = source.module(MQ).classes['MolQuery']
+    rw = Obj(RWMolCls, {'atoms': [Obj(QAtom, {'prim': ('pre', i), 'expanded': []}, 'param') for i in range(natoms)], 'bonds': []}, 'param')
+    return Obj(cls, {'mol': rw, 'atom_names': ['pre%d' % i for i in range(natoms)], 'mol_constraints': [], 'atom_constraints': _defaultdict(I, [I.world.types['list']], {}),
+                     'bond_constraints': [], 'double_bond_stereo_constraints': []}, 'fresh')
+
+
+
+def mk_reader(I):
+    cls = source.module(MQR).classes['MolQueryReader']
+    return Obj(cls, {'tree': None, 'RINGgroups': None}, 'param')
+
+
+def cn_tree(I, form):
+    d = I.fresh('digit', 'int')
+    if form == 'op':
+        op = ['>', '=', '<', '>=', '<='][I.ctx.choose([True] * 5, 'operator')]
+        return T('ConstraintNumber', op, d), ('CN', op, d)
+    return T('ConstraintNumber', d), ('CN', '=', d)
+
+
+def u_read_simple_constraints(I):
+    """in ring of size / has n radical electrons / in n ring: [Boolean] ConstraintNumber"""
+    ctx = I.ctx
+    which, clsname = [('ReadAtomConstraintRing', 'AtomRing'), ('ReadAtomConstraintRadical', 'AtomRadical'), ('ReadAtomConstraintNRing', 'AtomNRing')][ctx.choose([True] * 3, 'reader')]
+    boolean = [None, '!', '||'][ctx.choose([True] * 3, 'Boolean')]
+    cnt, cnd = cn_tree(I, ['op', 'bare'][ctx.choose([True, True], 'number form')])
+    tree = ([T('Boolean', boolean)] if boolean else []) + [cnt]
+    out = run_target(I, MQR, 'MolQueryReader.' + which, [tree], self_obj=mk_reader(I))
+    field = {'AtomRing': 'ring_sizeCN', 'AtomRadical': 'CN', 'AtomNRing': 'NringCN'}[clsname]
+    want = (clsname,) + tuple(sorted([(field, cnd), ('negate', boolean == '!')]))
+    check_outcome(I, out, raises={'NotImplementedError': z3.BoolVal(boolean == '||')},
+                  returns=lambda r: [("'!' negates, the number is read as written (bare number means '=')", same_struct(describe(r), want))])
+    return {'inputs': {}}
+
+
+def u_read_connectivity(I):
+    ctx = I.ctx
+    boolean = [None, '!', '&&'][ctx.choose([True] * 3, 'Boolean')]
+    cnform = [None, 'op', 'bare'][ctx.choose([True] * 3, 'number')]
+    target = ['AtomType', 'GroupName'][ctx.choose([True, True], 'target')]
+    bondk = [None, 'double', 'any'][ctx.choose([True] * 3, 'bond')]
+    tree = []
+    if boolean:
+        tree.append(T('Boolean', boolean))
+    cnd = ('CN', '>=', 1)
+    if cnform:
+        cnt, cnd = cn_tree(I, cnform)
+        tree.append(cnt)
+    atype = T('AtomType', T('Symbols', 'C'))
+    tree.append(atype if target == 'AtomType' else T('GroupName', I.fresh('group', 'str')))
+    if bondk:
+        tree.append(T('BondType', bondk))
+    qa = Obj(QAtom, {'prim': ('from-ReadAtomType',), 'expanded': []}, 'param')
+    nested = [Obj(AbsConstraint, {'cid': 5}, 'param')]
+    seen = []
+    I.world.contracts[(MQR, 'MolQueryReader.ReadAtomType')] = lambda I_, a, k: (seen.append(a[1]), (qa, nested))[1]
+    out = run_target(I, MQR, 'MolQueryReader.ReadAtomConstraintConnectivity', [tree], self_obj=mk_reader(I))
+    if boolean == '&&':
+        check_outcome(I, out, raises={'NotImplementedError': z3.BoolVal(True)})
+        return {'inputs': {}}
+    if target == 'GroupName':
+        check_outcome(I, out, raises={'RINGReaderError': z3.BoolVal(True)}, returns=lambda r: [('group connectivity without group definitions is an error', z3.BoolVal(False))])
+        return {'inputs': {}}
+
+    def posts(r):
+        if not (isinstance(r, Obj) and r.cls.name == 'AtomConnectivityAtom'):
+            return [('builds an AtomConnectivityAtom', z3.BoolVal(False))]
+        f = r.fields
+        return [("'!' negates", z3.BoolVal(f.get('negate') is (boolean == '!'))),
+                ("count constraint as written, default '>=1'", same_struct(describe(f.get('ConstraintNumber')), cnd)),
+                ("bond kind as written, default 'single'", same_struct(describe(f.get('bondquery')), ('BondQuery', bondk or 'single'))),
+                ('neighbour element and nested constraints come from the atom type', z3.BoolVal(f.get('connected') is qa and f.get('constraints') is nested
+                                                                                                   and len(seen) == 1 and seen[0] == atype[1:]))]
+    check_outcome(I, out, raises={}, returns=posts)
+    return {'inputs': {}}
+
+
+SUFFIX = {'+.': (1, ('FormalChargeEqualsQueryAtom', 1)), '-.': (1, ('FormalChargeEqualsQueryAtom', -1)), '+': (None, ('FormalChargeEqualsQueryAtom', 1)),
+          '-': (None, ('FormalChargeEqualsQueryAtom', -1)), '.': (1, None), ':': (2, None), ':.': (3, None), '?': (None, None)}
+
+
+def u_read_suffix(I):
+    ctx = I.ctx
+    sfx = list(SUFFIX)[ctx.choose([True] * len(SUFFIX), 'suffix')]
+    a = Obj(QAtom, {'prim': ('AtomNumEqualsQueryAtom', 6), 'expanded': []}, 'param')
+    out = run_target(I, MQR, 'MolQueryReader.ReadAtomSuffix', [[sfx], a], self_obj=mk_reader(I))
+    rad, chg = SUFFIX[sfx]
+
+    def posts(r):
+        want_c = None if rad is None else ('AtomRadical', ('CN', ('CN', '=', rad)), ('negate', False))
+        want_e = () if chg is None else (('AND', ('QAtom', chg, ())),)
+        return [('radical suffix table: . -> 1, : -> 2, :. -> 3, +./-. -> 1, others none', same_struct(describe(r), want_c) if want_c else z3.BoolVal(r is None)),
+                ('charge suffix table: + -> +1, - -> -1, others unconstrained', same_struct(tuple(a.fields['expanded']), want_e))]
+    check_outcome(I, out, raises={}, returns=posts)
+    return {'inputs': {}}
+
+
+def u_read_atomtype(I):
+    ctx = I.ctx
+    prefix = [None, 'aromatic', 'nonaromatic', 'ringatom', 'nonringatom', 'allylic'][ctx.choose([True] * 6, 'prefix')]
+    has_sfx = ctx.choose([True, True], 'suffix present')
+    tree = ([T('AtomPrefix', prefix)] if prefix else []) + [T('Symbols', 'C')] + ([T('AtomSuffix', '.')] if has_sfx else [])
+    qa = Obj(QAtom, {'prim': ('AtomNumEqualsQueryAtom', 6), 'expanded': []}, 'param')
+    sfxc = Obj(AbsConstraint, {'cid': 9}, 'param')
+    I.world.contracts[(MQR, 'MolQueryReader.ReadSymbols')] = lambda I_, a, k: qa
+    I.world.contracts[(MQR, 'MolQueryReader.ReadAtomSuffix')] = lambda I_, a, k: sfxc
+    out = run_target(I, MQR, 'MolQueryReader.ReadAtomType', [tree], self_obj=mk_reader(I))
+    ptab = {'aromatic': ('AtomIsAromatic', ('negate', False)), 'nonaromatic': ('AtomIsAromatic', ('negate', True)),
+            'ringatom': ('AtomIsInRing', ('negate', False)), 'nonringatom': ('AtomIsInRing', ('negate', True)), 'allylic': ('AtomIsAllylic', ('negate', False))}
+
+    def posts(r):
+        if not (isinstance(r, tuple) and len(r) == 2):
+            return [('returns (atom, constraints)', z3.BoolVal(False))]
+        at, cons = r
+        ps = [('the atom is the one built from the symbol', z3.BoolVal(at is qa))]
+        want = []
+        if prefix:
+            want.append(ptab[prefix])
+        if has_sfx:
+            ps.append(('with a suffix the charge/radical state comes from the suffix only', z3.BoolVal(cons[-1:] == [sfxc] and not qa.fields['expanded'])))
+            ps.append(('prefix table', same_struct(describe(cons[:-1]), tuple(want))))
+        else:
+            want.append(('AtomRadical', ('CN', ('CN', '=', 0)), ('negate', False)))
+            ps.append(('without a suffix: formal charge 0 and no radical electrons', z3.And(same_struct(describe(cons), tuple(want)),
+                       same_struct(tuple(qa.fields['expanded']), (('AND', ('QAtom', ('FormalChargeEqualsQueryAtom', 0), ())),)))))
+        return ps
+    check_outcome(I, out, raises={}, returns=posts)
+    return {'inputs': {}}
+
+
+def u_read_symbols(I):
+    ctx = I.ctx
+    cases = [('any atom', ('AtomNumGreaterQueryAtom', 0), ()), ('$', ('AtomNumGreaterQueryAtom', 0), ()), ('heavy atom', ('AtomNumGreaterQueryAtom', 1), ()),
+             ('X', ('AtomNumGreaterQueryAtom', 1), ()), ('M', ('AtomNumGreaterQueryAtom', 19), ()),
+             ('heteroatom', ('AtomNumEqualsQueryAtom', 7), ('N,O,P,S',)), ('&', ('AtomNumEqualsQueryAtom', 7), ('N,O,P,S',))]
+    k = ctx.choose([True] * (len(cases) + 2), 'symbol')
+    rd = mk_reader(I)
+    if k < len(cases):
+        sym, prim, extra = cases[k]
+        out = run_target(I, MQR, 'MolQueryReader.ReadSymbols', [[sym]], self_obj=rd)
+
+        def posts(r):
+            d = describe(r)
+            ps = [('symbol class %r -> primitive query' % sym, same_struct(d[:2], ('QAtom', prim)))]
+            if extra:
+                ps.append(('heteroatom = N or O or P or S', same_struct(d[2], tuple(('OR', ('QAtom', ('AtomNumEqualsQueryAtom', z), ())) for z in (8, 15, 16)))))
+            else:
+                ps.append(('nothing else is required of the atom', z3.BoolVal(d[2] == ())))
+            return ps
+        check_outcome(I, out, raises={}, returns=posts)
+        return {'inputs': {}}
+    lower = (k == len(cases))
+    sym = 'c' if lower else 'Cl'
+    out = run_target(I, MQR, 'MolQueryReader.ReadSymbols', [[sym]], self_obj=rd)
+    z = AtomicNumOf(z3.StringVal('C' if lower else 'Cl'))
+    known = ElementKnown(z3.StringVal('C' if lower else 'Cl'))
+
+    def posts2(r):
+        d = describe(r)
+        ps = [('an element symbol becomes the query "atomic number == Z(symbol)" (a query atom, so that suffixes can be added)',
+               same_struct(d[:2], ('QAtom', ('AtomNumEqualsQueryAtom', z))))]
+        if lower:
+            ps.append(('lower case = aromatic atom of that element', same_struct(d[2], (('AND', ('QAtom', ('IsAromaticQueryAtom',), ())),))))
+        else:
+            ps.append(('nothing else is required of the atom', z3.BoolVal(d[2] == ())))
+        return ps
+    check_outcome(I, out, raises={'RINGReaderError': z3.Not(known)}, returns=posts2)
+    return {'inputs': {}}
+
+
+def u_read_bondtype(I):
+    ctx = I.ctx
+    kinds = ['single', 'double', 'triple', 'quadruple', 'aromatic', 'ring', 'nonring', 'any', 'strong', 'partial', 'bogus']
+    kind = kinds[ctx.choose([True] * len(kinds), 'bond kind')]
+    mq = mk_molquery(I, 3)
+    prior = ctx.choose([True, True, True], 'situation')      # 0: fresh pair, 1: bond already declared, 2: self bond
+    if prior == 1:
+        mq.fields['mol'].fields['bonds'].append((0, 2, 'x'))
+    i, j = (2, 0) if prior != 2 else (1, 1)
+    out = run_target(I, MQR, 'MolQueryReader.ReadBondTypeBondedAtom', [i, j, kind, mq], self_obj=mk_reader(I))
+    typed = {'single': 'SINGLE', 'double': 'DOUBLE', 'triple': 'TRIPLE', 'quadruple': 'QUADRUPLE', 'aromatic': 'AROMATIC'}
+    if prior:
+        check_outcome(I, out, raises={'RINGReaderError': z3.BoolVal(True)}, returns=lambda r: [('a repeated bond / self bond is rejected', z3.BoolVal(False))])
+        return {'inputs': {}}
+
+    def posts(r):
+        b = mq.fields['mol'].fields['bonds']
+        bc = mq.fields['bond_constraints']
+        if len(b) != 1:
+            return [('exactly one bond added between the two atoms', z3.BoolVal(False))]
+        code = b[0][2].fields['code'] if isinstance(b[0][2], Obj) else None
+        want = BOND_CODES[typed[kind]] if kind in typed else BOND_CODES['UNSPECIFIED']
+        ps = [('bond added between the declared atoms', z3.BoolVal({b[0][0], b[0][1]} == {0, 2})),
+              ('typed kinds become typed query bonds, the others an unspecified bond', code == want if code is not None else z3.BoolVal(False))]
+        if kind in ('ring', 'nonring', 'strong', 'partial'):
+            ps.append(('... plus a bond constraint of that kind on the same atom pair',
+                       z3.BoolVal(len(bc) == 1 and bc[0][:2] == [2, 0]) and same_struct(describe(bc[0][2]), ('BondConstraint', ('BondQuery', kind)))))
+        else:
+            ps.append(('no extra bond constraint', z3.BoolVal(bc == [])))
+        return ps
+    check_outcome(I, out, raises={'NotImplementedError': z3.BoolVal(kind == 'bogus')}, returns=posts)
+    return {'inputs': {}}
+
+
+def u_read_atoms(I):
+    """ReadAtom / ReadBondedAtom / ReadRingBond: constraints go to the index of the atom just added, labels resolve to the
+    first atom declared with that label, an undefined label is a RINGReaderError"""
+    ctx = I.ctx
+    which = ['ReadAtom', 'ReadBondedAtom', 'ReadBondedAtom-undefined', 'ReadRingBond', 'ReadRingBond-undefined'][ctx.choose([True] * 5, 'reader')]
+    with_chain = ctx.choose([True, True], 'constraint chain')
+    mq = mk_molquery(I, 2)
+    mq.fields['atom_names'] = ['c1', 'c2']
+    qa = Obj(QAtom, {'prim': ('new',), 'expanded': []}, 'param')
+    c1, c2 = Obj(source.module(MQ).classes['AtomIsInRing'], {'negate': False}, 'param'), Obj(source.module(MQ).classes['AtomIsAromatic'], {'negate': True}, 'param')
+    I.world.contracts[(MQR, 'MolQueryReader.ReadAtomType')] = lambda I_, a, k: (qa, [c1, c2])
+    chain_calls, bond_calls = [], []
+    I.world.contracts[(MQR, 'MolQueryReader.ReadAtomConstraintChain')] = lambda I_, a, k: chain_calls.append(tuple(a[1:]))
+    I.world.contracts[(MQR, 'MolQueryReader.ReadBondTypeBondedAtom')] = lambda I_, a, k: bond_calls.append(tuple(a[1:]))
+    chain = T('AtomConstraintChain', T('AtomConstraints'))
+    at = T('AtomType', T('Symbols', 'C'))
+    rd = mk_reader(I)
+    if which == 'ReadAtom':
+        tree = [at, T('AtomLabel', 'c3')] + ([chain] if with_chain else [])
+        out = run_target(I, MQR, 'MolQueryReader.ReadAtom', [tree, mq], self_obj=rd)
+    elif which.startswith('ReadBondedAtom'):
+        target = 'c2' if which == 'ReadBondedAtom' else 'zz'
+        tree = [at, T('AtomLabel', 'c3'), T('BondType', 'double'), T('AtomLabel', target)] + ([chain] if with_chain else [])
+        out = run_target(I, MQR, 'MolQueryReader.ReadBondedAtom', [tree, mq], self_obj=rd)
+    else:
+        target = 'c2' if which == 'ReadRingBond' else 'zz'
+        tree = [T('AtomLabel', 'c1'), T('BondType', 'single'), T('AtomLabel', target)]
+        out = run_target(I, MQR, 'MolQueryReader.ReadRingBond', [tree, mq], self_obj=rd)
+    if which.endswith('undefined'):
+        check_outcome(I, out, raises={'RINGReaderError': z3.BoolVal(True)}, returns=lambda r: [('an undefined label is an error', z3.BoolVal(False))])
+        return {'inputs': {}}
+
+    def posts(r):
+        f = mq.fields
+        if which == 'ReadRingBond':
+            return [('ring bond between the two labelled atoms with the declared kind', z3.BoolVal(bond_calls == [(0, 1, 'single', mq)])),
+                    ('no atom added', z3.BoolVal(len(f['mol'].fields['atoms']) == 2 and f['atom_names'] == ['c1', 'c2']))]
+        ps = [('the atom is appended to the query molecule and its label recorded in declaration order',
+               z3.BoolVal(len(f['mol'].fields['atoms']) == 3 and f['mol'].fields['atoms'][2] is qa and f['atom_names'] == ['c1', 'c2', 'c3'])),
+              ('its type constraints are attached to the index of the atom just added', z3.BoolVal(f['atom_constraints'].get(2) == [c1, c2] and list(f['atom_constraints']) == [2])),
+              ('its constraint chain is read for the same index', z3.BoolVal(chain_calls == ([(chain[1:], mq, 2)] if with_chain else [])))]
+        if which == 'ReadBondedAtom':
+            ps.append(('bonded to the atom carrying the target label, with the declared kind', z3.BoolVal(bond_calls == [(2, 1, 'double', mq)])))
+        return ps
+    check_outcome(I, out, raises={}, returns=posts)
+    return {'inputs': {}}
+
+
+def u_read_prefix(I):
+    ctx = I.ctx
+    a = [None, 'positive', 'negative', 'neutral'][ctx.choose([True] * 4, 'charge')]
+    b = [None, 'aromatic', 'olefinic', 'paraffinic'][ctx.choose([True] * 4, 'kind')]
+    c = [None, 'cyclic', 'linear'][ctx.choose([True] * 3, 'shape')]
+    tree = [x for x in (a, b, c) if x]
+    if not tree:
+        return {'inputs': {}}
+    mq = mk_molquery(I, 0)
+    out = run_target(I, MQR, 'MolQueryReader.ReadMolQueryPrefix', [tree, mq], self_obj=mk_reader(I))
+    want = []
+    if a:
+        want.append(('MolCharge', ('ConstraintNumber', ('CN', '=', {'positive': 1, 'negative': -1, 'neutral': 0}[a]))))
+    if b:
+        want.append(({'aromatic': 'MolAromatic', 'olefinic': 'MolOlefinic', 'paraffinic': 'MolParaffinic'}[b],))
+    if c:
+        want.append(({'cyclic': 'MolCyclic', 'linear': 'MolLinear'}[c],))
+    check_outcome(I, out, raises={}, returns=lambda r: [('molecule prefix table', same_struct(describe(mq.fields['mol_constraints']), tuple(want)))])
+    return {'inputs': {}}
+
+
+READER_UNITS = [
+    Unit('MolQueryReader.ReadAtomConstraintRing/Radical/NRing', (MQR, 'MolQueryReader.ReadAtomConstraintRing'), u_read_simple_constraints),
+    Unit('MolQueryReader.ReadAtomConstraintConnectivity', (MQR, 'MolQueryReader.ReadAtomConstraintConnectivity'), u_read_connectivity),
+    Unit('MolQueryReader.ReadAtomSuffix', (MQR, 'MolQueryReader.ReadAtomSuffix'), u_read_suffix),
+    Unit('MolQueryReader.ReadAtomType', (MQR, 'MolQueryReader.ReadAtomType'), u_read_atomtype),
+    Unit('MolQueryReader.ReadSymbols', (MQR, 'MolQueryReader.ReadSymbols'), u_read_symbols),
+    Unit('MolQueryReader.ReadBondTypeBondedAtom', (MQR, 'MolQueryReader.ReadBondTypeBondedAtom'), u_read_bondtype),
+    Unit('MolQueryReader.ReadAtom/ReadBondedAtom/ReadRingBond', (MQR, 'MolQueryReader.ReadBondedAtom'), u_read_atoms),
+    Unit('MolQueryReader.ReadMolQueryPrefix', (MQR, 'MolQueryReader.ReadMolQueryPrefix'), u_read_prefix),
+]
+for _u in READER_UNITS:
+    _u.world_factory = rworld
+UNITS += READER_UNITS
+
+from . import standins
+STANDINS = [standins.c08_matcher]
